@@ -144,3 +144,242 @@ Proof.
   split; [apply Permutation.Permutation_sym, Permutation.Permutation_rev|].
   split; [vm_compute; discriminate|vm_compute; reflexivity].
 Qed.
+
+(** * Tie to the source by translation (compute/reconciliation.py on utils/dynamic_programming.py)
+
+    [Gen/TableGen.v] (Table, TableProxy, EntryProxy, _generate_table with dictionary dimensions) and [Gen/ThlGen.v]
+    (_compute_thl_try_speciation, _compute_thl_try_duplication_transfer, _compute_thl_table, _decode_thl_table,
+    reconcile_thl, reconcile_lca) are regenerated from the source on every run (translator/pyfun.py, table_gen.py,
+    thl_gen.py), on top of the generated [Entry] (Gen/EntryGen.v) and evaluator (Gen/EvalGen.v).  Object nodes carry
+    identifiers, the species tree is a tree of root paths, the LCA structure is instantiated with the path operations.
+    Every cell of the generated table computation EQUALS the model cell (same value for every policy; same tags as a
+    set under ALL: the code meets candidates in level/post-order, the model in pre-order), the generated decoder and
+    [reconcile_thl] return the model's ALL set up to permutation, and [reconcile_lca] equals [lca_rec]. *)
+
+From SR Require Import Gen.TableGen Gen.ThlGen Proofs.TableGenProofs Proofs.ThlGenProofs.
+
+Theorem C01_gen_speciation_eq :
+  forall (lca node_id : Type) (nid_eqb : node_id -> node_id -> bool),
+       (forall a b : node_id, reflect (a = b) (nid_eqb a b)) ->
+       forall (lcaobj : lca) (rp : ret) (c : costs) (s : path) (SL SR : T.STree path)
+         (nid : node_id) (L R : EV.TreeNode node_id)
+         (tb : TG.table_state T.key (T.MappingInfo path)) (e0 : entry tag),
+       inv2 rp tb ->
+       gsem nid_eqb tb nid s = emap tag_mi e0 ->
+       exists tb' : T.TableGen.table_state T.key (T.MappingInfo path),
+         T.gen_compute_thl_try_speciation path_eqb nid_eqb (fun _ : lca => dist) lcaobj
+           (T.STree_node s SL SR) (EV.TreeNode_node nid L R) tb (EvalGenProofs.stsocc c) =
+         T.Ok (tb', tt) /\
+         inv2 rp tb' /\
+         gsem nid_eqb tb' nid s =
+         emap tag_mi
+           (cell_upd rp e0
+              (spe_batch_o c rp (fun x : path => val (gsem nid_eqb tb (EV.TreeNode_id L) x))
+                 (fun x : path => val (gsem nid_eqb tb (EV.TreeNode_id R) x)) s
+                 (ids (T.STree_levelorder SL)) (ids (T.STree_levelorder SR)))) /\
+         (forall (n : node_id) (x : path),
+          (n, x) <> (nid, s) -> gsem nid_eqb tb' n x = gsem nid_eqb tb n x).
+Proof. exact @gen_speciation_eq. Qed.
+Print Assumptions C01_gen_speciation_eq.
+
+Theorem C01_gen_duplication_transfer_eq :
+  forall (lca node_id : Type) (nid_eqb : node_id -> node_id -> bool),
+       (forall a b : node_id, reflect (a = b) (nid_eqb a b)) ->
+       forall (lcaobj : lca) (rp : ret) (c : costs) (rs ST : T.STree path) 
+         (nid : node_id) (L R : EV.TreeNode node_id)
+         (tb : TG.table_state T.key (T.MappingInfo path)) (e0 : entry tag),
+       inv2 rp tb ->
+       gsem nid_eqb tb nid (T.STree_id rs) = emap tag_mi e0 ->
+       exists tb' : T.TableGen.table_state T.key (T.MappingInfo path),
+         T.gen_compute_thl_try_duplication_transfer path_eqb nid_eqb (fun _ : lca => anc)
+           (fun _ : lca => dist) (fun _ : lca => ST) lcaobj rs (EV.TreeNode_node nid L R) tb
+           (EvalGenProofs.stsocc c) = T.Ok (tb', tt) /\
+         inv2 rp tb' /\
+         gsem nid_eqb tb' nid (T.STree_id rs) =
+         emap tag_mi
+           (cell_upd rp e0
+              (dt_batch_o c rp (fun x : path => val (gsem nid_eqb tb (EV.TreeNode_id L) x))
+                 (fun x : path => val (gsem nid_eqb tb (EV.TreeNode_id R) x)) 
+                 (T.STree_id rs) (filter (anc (T.STree_id rs)) (ids (T.STree_levelorder ST)))
+                 (filter (sep (T.STree_id rs)) (ids (T.STree_levelorder ST))))) /\
+         (forall (n : node_id) (x : path),
+          (n, x) <> (nid, T.STree_id rs) -> gsem nid_eqb tb' n x = gsem nid_eqb tb n x).
+Proof. exact @gen_duplication_transfer_eq. Qed.
+Print Assumptions C01_gen_duplication_transfer_eq.
+
+Theorem C01_gen_compute_thl_table_eq :
+  forall (lca node_id : Type) (nid_eqb : node_id -> node_id -> bool),
+       (forall a b : node_id, reflect (a = b) (nid_eqb a b)) ->
+       forall (lcaobj : lca) (c : costs) (rp : ret) (ST : T.STree path) 
+         (leafsp : node_id -> path) (O : EV.TreeNode node_id),
+       NoDup (ids (T.STree_postorder ST)) ->
+       NoDup (map EV.TreeNode_id (T.TreeNode_postorder O)) ->
+       exists tb : T.TableGen.table_state T.key (T.MappingInfo path),
+         T.gen_compute_thl_table path_eqb nid_eqb (fun _ : lca => anc) 
+           (fun _ : lca => dist) (fun _ : lca => ST)
+           {|
+             EV.rin_object_tree := O;
+             EV.rin_species_lca := lcaobj;
+             EV.rin_leaf_object_species := leafsp;
+             EV.rin_costs := EvalGenProofs.stsocc c
+           |} (EntryGenProofs.prc rp) = T.Ok tb /\
+         inv2 rp tb /\
+         (forall u : T.EvalGen.TreeNode node_id,
+          In u (T.TreeNode_postorder O) ->
+          forall s : path,
+          gsem nid_eqb tb (EV.TreeNode_id u) s = emap tag_mi (tcell c rp ST leafsp u s)) /\
+         (forall (n : node_id) (s : path),
+          ~ In n (map EV.TreeNode_id (T.TreeNode_postorder O)) ->
+          gsem nid_eqb tb n s = default_entry MIN).
+Proof. exact @gen_compute_thl_table_eq. Qed.
+Print Assumptions C01_gen_compute_thl_table_eq.
+
+Theorem C01_tcell_model :
+  forall (node_id : Type) (S : stree) (c : costs) (rp : ret) (leafsp : node_id -> path)
+         (syn : node_id -> list fam),
+       nn (c_hgt c) ->
+       forall (t : EV.TreeNode node_id) (s : path),
+       In s (snodes S) ->
+       esim rp (tcell c rp (sembed S []) leafsp t s)
+         (tread (thl_table S c rp (EvalGenProofs.otree_of leafsp syn t)) s).
+Proof. exact @tcell_model. Qed.
+Print Assumptions C01_tcell_model.
+
+Theorem C01_tcell_model_tags :
+  forall (node_id : Type) (S : stree) (c : costs) (leafsp : node_id -> path)
+         (syn : node_id -> list fam) (t : EV.TreeNode node_id) (s : path),
+       nn (c_hgt c) ->
+       In s (snodes S) ->
+       Permutation.Permutation (tags (tcell c RALL (sembed S []) leafsp t s))
+         (tags (tread (thl_table S c RALL (EvalGenProofs.otree_of leafsp syn t)) s)).
+Proof. exact @tcell_model_tags. Qed.
+Print Assumptions C01_tcell_model_tags.
+
+Theorem C01_gen_decode_eq :
+  forall (lca node_id : Type) (nid_eqb : node_id -> node_id -> bool),
+       (forall a b : node_id, reflect (a = b) (nid_eqb a b)) ->
+       forall (lcaobj : lca) (c : costs) (rp : ret) (leafsp : node_id -> path)
+         (O : EV.TreeNode node_id) (ord : list (T.MappingInfo path) -> list (T.MappingInfo path)),
+       (forall (l : list (T.MappingInfo path)) (m : T.MappingInfo path), In m (ord l) -> In m l) ->
+       forall (t : EV.TreeNode node_id) (s : path) (tb : TG.table_state T.key (T.MappingInfo path)),
+       inv2 rp tb ->
+       tags_ok nid_eqb tb t ->
+       exists tb' : T.TableGen.table_state T.key (T.MappingInfo path),
+         T.gen_decode_thl_table path_eqb nid_eqb ord t s
+           {|
+             EV.rin_object_tree := O;
+             EV.rin_species_lca := lcaobj;
+             EV.rin_leaf_object_species := leafsp;
+             EV.rin_costs := EvalGenProofs.stsocc c
+           |} tb =
+         T.Ok
+           (tb',
+            map
+              (T.mk_tout
+                 {|
+                   EV.rin_object_tree := O;
+                   EV.rin_species_lca := lcaobj;
+                   EV.rin_leaf_object_species := leafsp;
+                   EV.rin_costs := EvalGenProofs.stsocc c
+                 |}) (decode_g ord (gsem nid_eqb tb) t s)) /\
+         tsame (T.key_eqb path_eqb nid_eqb) tb tb'.
+Proof. exact @gen_decode_eq. Qed.
+Print Assumptions C01_gen_decode_eq.
+
+Theorem C01_gen_reconcile_thl_eq :
+  forall (lca node_id : Type) (nid_eqb : node_id -> node_id -> bool),
+       (forall a b : node_id, reflect (a = b) (nid_eqb a b)) ->
+       forall (lcaobj : lca) (c : costs) (rp : ret) (ST : T.STree path) 
+         (leafsp : node_id -> path) (O : EV.TreeNode node_id),
+       NoDup (ids (T.STree_postorder ST)) ->
+       forall ord : list (T.MappingInfo path) -> list (T.MappingInfo path),
+       (forall (l : list (T.MappingInfo path)) (m : T.MappingInfo path), In m (ord l) -> In m l) ->
+       forall (oeqb : T.tout_state path lca node_id -> T.tout_state path lca node_id -> bool)
+         (missing : node_id -> path) (syn : node_id -> list fam),
+       NoDup (map EV.TreeNode_id (T.TreeNode_postorder O)) ->
+       exists tb : T.TableGen.table_state T.key (T.MappingInfo path),
+         T.gen_compute_thl_table path_eqb nid_eqb (fun _ : lca => anc) 
+           (fun _ : lca => dist) (fun _ : lca => ST)
+           {|
+             EV.rin_object_tree := O;
+             EV.rin_species_lca := lcaobj;
+             EV.rin_leaf_object_species := leafsp;
+             EV.rin_costs := EvalGenProofs.stsocc c
+           |} (EntryGenProofs.prc rp) = T.Ok tb /\
+         (forall u : T.EvalGen.TreeNode node_id,
+          In u (T.TreeNode_postorder O) ->
+          forall s : path,
+          gsem nid_eqb tb (EV.TreeNode_id u) s = emap tag_mi (tcell c rp ST leafsp u s)) /\
+         T.gen_reconcile_thl path_eqb nid_eqb (fun _ : lca => anc) (fun _ : lca => sanc)
+           (fun _ : lca => comparable) (fun _ : lca => lcp) (fun _ : lca => dist)
+           (fun _ : lca => ST) oeqb missing ord
+           {|
+             EV.rin_object_tree := O;
+             EV.rin_species_lca := lcaobj;
+             EV.rin_leaf_object_species := leafsp;
+             EV.rin_costs := EvalGenProofs.stsocc c
+           |} (EntryGenProofs.prc rp) =
+         T.Ok
+           (tags
+              (update oeqb MIN rp (default_entry MIN)
+                 (thl_candidates_o nid_eqb lcaobj c ST leafsp O ord missing syn (gsem nid_eqb tb)))).
+Proof. exact @gen_reconcile_thl_eq. Qed.
+Print Assumptions C01_gen_reconcile_thl_eq.
+
+Theorem C01_gen_reconcile_thl_model :
+  forall (lca node_id : Type) (nid_eqb : node_id -> node_id -> bool) 
+         (S : stree) (c : costs) (leafsp : node_id -> path) (syn : node_id -> list fam)
+         (missing : node_id -> path) (ord : list (T.MappingInfo path) -> list (T.MappingInfo path))
+         (O : EV.TreeNode node_id) (lcaobj : lca)
+         (oeqb : T.tout_state path lca node_id -> T.tout_state path lca node_id -> bool),
+       (forall a b : node_id, reflect (a = b) (nid_eqb a b)) ->
+       nn (c_hgt c) ->
+       (forall l : list (T.MappingInfo path), sameset (ord l) l) ->
+       NoDup (map EV.TreeNode_id (T.TreeNode_postorder O)) ->
+       (forall a b : T.tout_state path lca node_id,
+        rtree_eqb (rt_out nid_eqb missing O a) (rt_out nid_eqb missing O b) = oeqb a b) ->
+       exists outs : list (T.tout_state path lca node_id),
+         T.gen_reconcile_thl path_eqb nid_eqb (fun _ : lca => anc) (fun _ : lca => sanc)
+           (fun _ : lca => comparable) (fun _ : lca => lcp) (fun _ : lca => dist)
+           (fun _ : lca => sembed S []) oeqb missing ord
+           {|
+             EV.rin_object_tree := O;
+             EV.rin_species_lca := lcaobj;
+             EV.rin_leaf_object_species := leafsp;
+             EV.rin_costs := EvalGenProofs.stsocc c
+           |} (EntryGenProofs.prc RALL) = T.Ok outs /\
+         Permutation.Permutation (map (rt_out nid_eqb missing O) outs)
+           (tags (reconcile_thl S c RALL (EvalGenProofs.otree_of leafsp syn O))).
+Proof. exact @gen_reconcile_thl_model. Qed.
+Print Assumptions C01_gen_reconcile_thl_model.
+
+Theorem C01_gen_reconcile_lca_eq :
+  forall (lca node_id : Type) (nid_eqb : node_id -> node_id -> bool),
+       (forall a b : node_id, reflect (a = b) (nid_eqb a b)) ->
+       forall (lcaobj : lca) (c : EV.CostValues) (leafsp : node_id -> path)
+         (syn : node_id -> list fam) (O : EV.TreeNode node_id) (missing : node_id -> path),
+       NoDup (map EV.TreeNode_id (T.TreeNode_postorder O)) ->
+       exists d : list (node_id * path),
+         T.gen_reconcile_lca nid_eqb (fun _ : lca => lcp)
+           {|
+             EV.rin_object_tree := O;
+             EV.rin_species_lca := lcaobj;
+             EV.rin_leaf_object_species := leafsp;
+             EV.rin_costs := c
+           |} =
+         T.Ok
+           {|
+             T.tout_input :=
+               {|
+                 EV.rin_object_tree := O;
+                 EV.rin_species_lca := lcaobj;
+                 EV.rin_leaf_object_species := leafsp;
+                 EV.rin_costs := c
+               |};
+             T.tout_object_species := d
+           |} /\
+         EvalGenProofs.rtree_of (T.dict_fun nid_eqb missing d) O =
+         LcaRec.lca_rec (EvalGenProofs.otree_of leafsp syn O).
+Proof. exact @gen_reconcile_lca_eq. Qed.
+Print Assumptions C01_gen_reconcile_lca_eq.
+
